@@ -137,6 +137,11 @@ def run(plan):
                 if not ok:
                     res.fail(f"{k} differs from the reported value", f"body {hexbody}: got {got!r} expected {v!r}")
                     return
+            if d["indep_aux"] and d["aux_heat"] and int(ac.aux_mode) == 0:
+                # both auxiliary-heat flags are reported on: which of the two modes is shown is the library's choice,
+                # "off" is not what the unit reported
+                res.fail("aux_mode differs from the reported value", f"body {hexbody}: both aux flags set, exposed OFF")
+                return
             for name, raw, tenths in (("indoor_temperature", d["indoor_raw"], d["indoor_tenths"]),
                                       ("outdoor_temperature", d["outdoor_raw"], d["outdoor_tenths"])):
                 msg = acmodel.sensor_ok(getattr(ac, name), raw, tenths, d["fahrenheit"])
